@@ -530,9 +530,24 @@ def gen_conc_program(rng, profile):
                            # an inner nesting level whose body raises; the exception is handled inside the outer section
                            'inner_raise': reentrant and rng.random() < 0.3,
                            'nest': rng.randint(1, 3) if reentrant else 1,
-                           'hold': _w(rng, [(0.0, 5), (POLL / 2, 2), (SMALL + POLL, 2), (1.0, 1)]),
+                           'hold': _w(rng, [(0.0, 5), (POLL / 2, 2), (SMALL, 2), (SMALL + POLL, 2), (1.0, 1)]),
                            'yields': rng.randint(1, 4)})
         threads.append({'start': _w(rng, [(0.0, 7), (POLL / 2, 2), (SMALL, 1)]), 'rounds': rounds})
+    if rng.random() < 0.15:
+        # exact tie: a holder releases at the very instant a waiter's deadline expires (both then runnable, any line order)
+        nobj = 1
+        for t, th in enumerate(threads):
+            th['start'] = 0.0
+            r = th['rounds'][0]
+            r['obj'] = 0
+            r['hold'] = SMALL
+            if t and r['how'] != 'with':
+                r['mode'] = 'timed'
+        if rng.random() < 0.5:
+            ctor_timeout = SMALL
+        for th in threads:
+            for r in th['rounds']:
+                r['obj'] = 0
     return {'world': 'fl-conc', 'nobj': nobj, 'reentrant': reentrant, 'ctor_timeout': ctor_timeout, 'threads': threads}
 
 
